@@ -146,7 +146,18 @@ impl Scope for RotBucket {
 fn check_bucket(obs: &mut Obs, newest: usize, p: usize, rng: &mut Rng, label: &str) {
     let sim = s3sim::global();
     let site = s3sim::fresh_site();
-    let t0: i64 = 1_722_000_000_000 + rng.below(1_000_000_000) as i64;
+    // upload times: mostly historical, but a client clock may run behind the bucket's: some
+    // buckets are stamped ahead of this machine's wall clock (minutes, hours, decades)
+    let now_ms = chrono::Utc::now().timestamp_millis();
+    let t0: i64 = match rng.below(6) {
+        0 => now_ms + 120_000,
+        1 => now_ms + 3_600_000 + rng.below(1_000_000) as i64,
+        2 => 4_102_444_800_000 + rng.below(1_000_000_000) as i64, // year 2100
+        _ => 1_722_000_000_000 + rng.below(1_000_000_000) as i64,
+    };
+    if t0 > now_ms {
+        obs.count("buckets_stamped_ahead_of_the_wall_clock", 1);
+    }
     let mut vols = std::collections::BTreeMap::new();
     for j in 0..p {
         let v = (newest + 999 - 1 - j) % 999 + 1; // going backwards from the newest, 1..=999
